@@ -2119,6 +2119,21 @@ def _w5_ctor(c):
 	return ck
 
 
+class _OneShot(object):
+	"""an iterator class of the caller: __iter__ returns itself, __next__ hands out the pieces once"""
+
+	def __init__(self, pieces):
+		self.pieces = list(pieces)
+
+	def __iter__(self):
+		return self
+
+	def __next__(self):
+		if not self.pieces:
+			raise StopIteration
+		return self.pieces.pop(0)
+
+
 def _containers(d, cut):
 	"""the octets d as every kind of content object the Body documentation lists (pieces cut at the given places, one empty piece among them)"""
 	import collections
@@ -2126,15 +2141,17 @@ def _containers(d, cut):
 	ps = [d[:cut[0]], b'', d[cut[0]:cut[1]], d[cut[1]:]]
 	return [('bytes', lambda: d, True), ('bytearray', lambda: bytearray(d), True), ('list', lambda: list(ps), True), ('tuple', lambda: tuple(ps), True), ('iter(list)', lambda: iter(list(ps)), True),
 		('generator', lambda: (p for p in ps), True), ('deque', lambda: collections.deque(ps), True), ('BytesIO', lambda: io.BytesIO(d), True),
-		# map / itertools.chain objects are read once: the library buffers generators and list iterators only (observed on the unchanged tree, reported) -> a single pass
-		('map', lambda: map(bytes, ps), False), ('itertools.chain', lambda: itertools.chain(ps[:2], ps[2:]), False), ('dict keys', lambda: dict.fromkeys(p for p in ps if p), True)]
+		# one-shot iterators of every kind are buffered like a generator (D64, repaired in 73ea79c: before, only generators and list iterators were): read twice, coded, through the wire
+		('map', lambda: map(bytes, ps), True), ('filter', lambda: filter(None, ps), True), ('itertools.chain', lambda: itertools.chain(ps[:2], ps[2:]), True), ('iter(tuple)', lambda: iter(tuple(ps)), True),
+		('reversed', lambda: reversed(ps[::-1]), True), ('zip-based generator', lambda: (p for p, in zip(ps)), True), ('user-defined iterator', lambda: _OneShot(ps), True), ('itertools.islice', lambda: itertools.islice(ps, 0, None), True),
+		('dict keys', lambda: dict.fromkeys(p for p in ps if p), True)]
 	# not memoryview: Body iterates it as integers and refuses them with TypeError (the documented content types do not list it)
 
 
 def _w5_types(c):
 	"""(11) the same octets as every type of content object / argument: the result is the one the bytes form gives"""
 	import tempfile
-	from httoop import Body, Response
+	from httoop import Body, Request, Response
 	from httoop.codecs import lookup
 	d, cut, fam = bytes.fromhex(c['d']), c['cut'], c['c']
 	ck = []
@@ -2174,8 +2191,20 @@ def _w5_types(c):
 			m.body = make()
 			m.headers['Content-Encoding'] = fam
 			return _deliver(m, False, len(name) % 4)[0]
-		if again:   # preparing a response measures the body, which already is the one pass of a map / chain object: the composed body is empty (unchanged tree, reported)
+		if again:
 			ck.append(['response.body = %s, coded with %s, as delivered' % (name, fam), _try(wire), d.hex()])
+
+		def wire_plain(req):
+			def f():
+				m = Request('POST', '/x') if req else Response()
+				if req:
+					m.headers['Host'] = 'h'
+				m.body = make()
+				return _deliver(m, req, len(name) % 4)[0]
+			return f
+		# uncoded, framed by Content-Length: preparing the message measures the body before it is composed
+		ck.append(['response.body = %s, uncoded, as delivered' % name, _try(wire_plain(False)), d.hex()])
+		ck.append(['request.body = %s, uncoded, as delivered' % name, _try(wire_plain(True)), d.hex()])
 	# text pieces in a charset that maps every octet
 	text = d.decode('ISO8859-1')
 	for name, make in (('str', lambda: text), ('list of str', lambda: [text[:cut[0]], text[cut[0]:]]), ('generator of str', lambda: (p for p in (text[:cut[1]], text[cut[1]:])))):
